@@ -1,10 +1,524 @@
-// Package c15: harness for property C15 (stub until built).
+// Package c15: untrusted inputs are rejected with errors, never with panics.
+// Drives the real memo decoder, metadata / route validation, the swap IBC middleware and
+// every Msg / Query service method of the custom modules on the running application.
 package c15
 
-import "fmt"
+import (
+	"fmt"
+	"os"
+	"reflect"
+	"regexp"
+	"sort"
+	"strings"
+
+	sdkmath "cosmossdk.io/math"
+	sdk "github.com/cosmos/cosmos-sdk/types"
+	authtypes "github.com/cosmos/cosmos-sdk/x/auth/types"
+
+	dakeeper "github.com/sunriselayer/sunrise/x/da/keeper"
+	datypes "github.com/sunriselayer/sunrise/x/da/types"
+	litypes "github.com/sunriselayer/sunrise/x/liquidityincentive/types"
+	lpkeeper "github.com/sunriselayer/sunrise/x/liquiditypool/keeper"
+	lptypes "github.com/sunriselayer/sunrise/x/liquiditypool/types"
+	sdtypes "github.com/sunriselayer/sunrise/x/selfdelegation/types"
+	sctypes "github.com/sunriselayer/sunrise/x/shareclass/types"
+	swaptypes "github.com/sunriselayer/sunrise/x/swap/types"
+	tctypes "github.com/sunriselayer/sunrise/x/tokenconverter/types"
+
+	"verifharness/apph"
+	"verifharness/c15/shape"
+	"verifharness/emit"
+)
+
+// outcome class of one call
+const (
+	clsOk    = "ok"
+	clsErr   = "err"
+	clsPanic = "panic"
+)
+
+// guard runs f under recover and classifies the outcome.
+func guard(f func() error) (cls string, detail string) {
+	defer func() {
+		if r := recover(); r != nil {
+			cls, detail = clsPanic, fmt.Sprint(r)
+		}
+	}()
+	if err := f(); err != nil {
+		return clsErr, err.Error()
+	}
+	return clsOk, ""
+}
+
+var digits = regexp.MustCompile(`[0-9]+`)
+
+type world struct {
+	h        *apph.H
+	p        *pools
+	ms       []method
+	byKey    map[string]method
+	orc      shape.Oracles
+	valBytes []byte
+}
+
+func must(err error) {
+	if err != nil {
+		panic(err)
+	}
+}
+
+// setup builds the application state the handlers run against: two pools with positions
+// (urise/uusdc id 0, uusdc/uatom id 1), one published DA item, and the value pools.
+func setup() *world {
+	h := apph.New(apph.Options{NumAccounts: 4})
+	w := &world{h: h}
+	ctx := h.Ctx()
+	a0 := h.Accts[0].Addr.String()
+	lp := lpkeeper.NewMsgServerImpl(h.App.LiquiditypoolKeeper)
+	mkPool := func(base, quote string) {
+		must(apph.Tx(ctx, func(ctx sdk.Context) error {
+			_, err := lp.CreatePool(ctx, &lptypes.MsgCreatePool{Authority: a0, DenomBase: base, DenomQuote: quote,
+				FeeRate: "0.01", PriceRatio: "1.0001", BaseOffset: "0.5"})
+			return err
+		}))
+	}
+	mkPool("urise", "uusdc")
+	mkPool("uusdc", "uatom")
+	for id := uint64(0); id < 2; id++ {
+		denoms := [][2]string{{"urise", "uusdc"}, {"uusdc", "uatom"}}[id]
+		must(apph.Tx(ctx, func(ctx sdk.Context) error {
+			_, err := lp.CreatePosition(ctx, &lptypes.MsgCreatePosition{Sender: a0, PoolId: id, LowerTick: -1000, UpperTick: 1000,
+				TokenBase: sdk.NewInt64Coin(denoms[0], 1_000_000_000), TokenQuote: sdk.NewInt64Coin(denoms[1], 1_000_000_000),
+				MinAmountBase: sdkmath.ZeroInt(), MinAmountQuote: sdkmath.ZeroInt()})
+			return err
+		}))
+	}
+	da := dakeeper.NewMsgServerImpl(h.App.DaKeeper)
+	must(apph.Tx(ctx, func(ctx sdk.Context) error {
+		_, err := da.PublishData(ctx, &datypes.MsgPublishData{Sender: a0, MetadataUri: "ipfs://item0", ParityShardCount: 1,
+			ShardDoubleHashes: [][]byte{{1, 2, 3}, {4, 5, 6}, {7, 8, 9}}})
+		return err
+	}))
+	p := &pools{denoms: []string{"urise", "uvrise", "uusdc", "uatom", "uosmo"}, uris: []string{"ipfs://item0", "ipfs://none"}}
+	for _, a := range h.Accts {
+		p.accAddrs = append(p.accAddrs, a.Addr.String())
+	}
+	vals, err := h.App.StakingKeeper.GetAllValidators(ctx)
+	must(err)
+	for _, v := range vals {
+		p.valAddrs = append(p.valAddrs, v.OperatorAddress)
+	}
+	p.authority = authtypes.NewModuleAddress("gov").String()
+	w.p = p
+	w.ms = allMethods(h)
+	w.byKey = map[string]method{}
+	for _, m := range w.ms {
+		w.byKey[m.Key()] = m
+	}
+	vb, err := h.App.StakingKeeper.ValidatorAddressCodec().StringToBytes(p.valAddrs[0])
+	must(err)
+	w.valBytes = vb
+	// a DA item that is being challenged (status set through the keeper), so that proofs are examined
+	must(h.App.DaKeeper.SetPublishedData(ctx, datypes.PublishedData{MetadataUri: "ipfs://challenged", ParityShardCount: 1,
+		ShardDoubleHashes: [][]byte{{1, 2, 3}, {4, 5, 6}, {7, 8, 9}}, Timestamp: h.Time, Status: datypes.Status_STATUS_CHALLENGING,
+		Publisher: a0, PublishedTimestamp: h.Time}))
+	acc := h.App.AuthKeeper.AddressCodec()
+	valc := h.App.StakingKeeper.ValidatorAddressCodec()
+	gov := authtypes.NewModuleAddress("gov")
+	w.orc = shape.Oracles{
+		AccOK: func(s string) bool { _, err := acc.StringToBytes(s); return err == nil },
+		ValOK: func(s string) bool { _, err := valc.StringToBytes(s); return err == nil },
+		IsAuth: func(s string) bool {
+			bz, err := acc.StringToBytes(s)
+			return err == nil && string(bz) == string(gov)
+		},
+	}
+	return w
+}
+
+// callMethod runs one service method on a discarded cache context under recover.
+func (w *world) callMethod(m method, req any) (string, string) {
+	ctx, _ := w.h.Ctx().CacheContext()
+	return guard(func() error {
+		_, err := m.Call(ctx, req)
+		return err
+	})
+}
+
+// explore is a development aid: reflective fuzz of every method, panics grouped by message.
+func explore(seed int64, n int) error {
+	w := setup()
+	defer w.h.Close()
+	r := emit.NewRand(seed)
+	type hit struct {
+		count int
+		req   string
+	}
+	hits := map[string]*hit{}
+	counts := map[string]map[string]int{}
+	for i := 0; i < n; i++ {
+		m := w.ms[i%len(w.ms)]
+		req := w.p.genRequest(r, m.In, m.Kind == "Query")
+		cls, detail := w.callMethod(m, req)
+		if counts[m.Key()] == nil {
+			counts[m.Key()] = map[string]int{}
+		}
+		counts[m.Key()][cls]++
+		if cls == clsPanic {
+			d := detail
+			if len(d) > 160 {
+				d = d[:160]
+			}
+			k := m.Key() + " :: " + digits.ReplaceAllString(strings.Split(d, "\n")[0], "#")
+			if hits[k] == nil {
+				hits[k] = &hit{req: fmt.Sprintf("%+v", req)}
+			}
+			hits[k].count++
+		}
+	}
+	keys := make([]string, 0, len(hits))
+	for k := range hits {
+		keys = append(keys, k)
+	}
+	sort.Strings(keys)
+	for _, k := range keys {
+		rq := hits[k].req
+		if len(rq) > 400 {
+			rq = rq[:400]
+		}
+		fmt.Printf("PANIC x%d %s\n    e.g. %s\n", hits[k].count, k, rq)
+	}
+	mk := make([]string, 0, len(counts))
+	for k := range counts {
+		mk = append(mk, k)
+	}
+	sort.Strings(mk)
+	for _, k := range mk {
+		fmt.Printf("%-60s %v\n", k, counts[k])
+	}
+	return nil
+}
+
+// ---------- direct SwapMetadata.Validate cases (Go values, including shapes no decoder produces) ----------
+
+func (w *world) genMetaCase(r *emit.Rand) (*swaptypes.SwapMetadata, string) {
+	m := w.genMeta(r, emit.Pick(r, "urise", "uusdc", "uatom"))
+	switch r.Intn(14) {
+	case 0, 1, 2, 3:
+		return m, "valid"
+	case 4:
+		m.Route = nil
+		return m, "nilroute"
+	case 5:
+		return m, "route:" + mutateRoute(r, m.Route, 0)
+	case 6:
+		m.AmountStrategy = nil
+		return m, "nostrategy"
+	case 7:
+		m.AmountStrategy = &swaptypes.SwapMetadata_ExactAmountIn{}
+		return m, "nilexactin"
+	case 8:
+		m.AmountStrategy = &swaptypes.SwapMetadata_ExactAmountOut{}
+		return m, "nilexactout"
+	case 9:
+		m.AmountStrategy = &swaptypes.SwapMetadata_ExactAmountIn{ExactAmountIn: &swaptypes.ExactAmountIn{MinAmountOut: edgeInt(r)}}
+		return m, "edgeminout"
+	case 10:
+		m.AmountStrategy = &swaptypes.SwapMetadata_ExactAmountOut{ExactAmountOut: &swaptypes.ExactAmountOut{AmountOut: edgeInt(r)}}
+		return m, "edgeamountout"
+	case 11:
+		f := validForward(r)
+		switch r.Intn(3) {
+		case 0:
+			f.Receiver = ""
+		case 1:
+			f.Port = emit.Pick(r, "", "a", "bad port", "transfer/x")
+		default:
+			f.Channel = emit.Pick(r, "", "c", "channel 1", strings.Repeat("c", 70))
+		}
+		m.Forward = f
+		return m, "badforward"
+	case 12:
+		f := validForward(r)
+		f.Channel = ""
+		m.AmountStrategy = &swaptypes.SwapMetadata_ExactAmountOut{ExactAmountOut: &swaptypes.ExactAmountOut{AmountOut: sdkmath.NewInt(5), Change: f}}
+		return m, "badchange"
+	default:
+		return m, "valid"
+	}
+}
+
+func (w *world) runMeta(m *swaptypes.SwapMetadata, tag string) (string, map[string]any, string) {
+	cls, det := guard(func() error { return m.Validate() })
+	code := map[string]int{clsOk: 0, clsErr: 1, clsPanic: 2}[cls]
+	info := map[string]any{"kind": "meta", "tag": tag, "meta": fmt.Sprintf("%v", m), "class": cls}
+	if det != "" {
+		info["detail"] = det
+	}
+	return fmt.Sprintf("CMeta %s %d", metaCoq(m), code), info, cls
+}
+
+// ---------- interface fee scenario: set the rate through the real MsgUpdateParams (persisted),
+// then ask for an exact-out quote with the interface fee; the previous params are restored ----------
+
+func (w *world) runFee(rate string) (string, map[string]any, []string) {
+	ctx := w.h.Ctx()
+	old, err := w.h.App.SwapKeeper.Params.Get(ctx)
+	must(err)
+	upd := w.byKey["swap.Msg.UpdateParams"]
+	qry := w.byKey["swap.Query.CalculationSwapExactAmountOut"]
+	ucls, udet := guard(func() error {
+		return apph.Tx(ctx, func(c sdk.Context) error {
+			_, e := upd.Call(c, &swaptypes.MsgUpdateParams{Authority: w.p.authority, Params: swaptypes.Params{InterfaceFeeRate: rate}})
+			return e
+		})
+	})
+	if strings.HasPrefix(udet, "panic:") {
+		ucls = clsPanic
+	}
+	good := poolRoute("urise", "uusdc", 0)
+	qcls, qdet := w.callMethod(qry, &swaptypes.QueryCalculationSwapExactAmountOutRequest{HasInterfaceFee: true, Route: &good, AmountOut: "1000"})
+	must(w.h.App.SwapKeeper.Params.Set(ctx, old))
+	code := map[string]int{clsOk: 0, clsErr: 1, clsPanic: 2}
+	dec := "None"
+	if d, err := sdkmath.LegacyNewDecFromStr(rate); err == nil {
+		dec = emit.Some(emit.Z(d.BigInt()))
+	}
+	info := map[string]any{"kind": "fee", "rate": rate, "update": ucls, "update_detail": udet, "quote": qcls, "quote_detail": qdet}
+	return fmt.Sprintf("CFee %s %d %d", dec, code[ucls], code[qcls]), info, []string{"fee update:" + ucls, "fee quote:" + qcls}
+}
+
+var feeRates = []string{"0", "0.01", "0.5", "0.999999999999999999", "1", "1.000000000000000001", "-0.1", "abc", "2", "0.000000000000000001", ""}
+
+// ---------- corpus: the inputs that panicked before the repairs (they must now return errors) ----------
+
+func (w *world) corpusMemos() []memoCase {
+	// the packet carries urise back from the counterparty: on this chain it is urise again
+	good := `"route":{"denom_in":"urise","denom_out":"uusdc","pool":{"pool_id":"0"}}`
+	mk := func(memo, tag string) memoCase {
+		return memoCase{memo: memo, tag: "corpus:" + tag, denom: "transfer/channel-7/urise", amount: "1000", receiver: w.p.accAddrs[1]}
+	}
+	return []memoCase{
+		mk(`{"swap":1}`, "swap_not_object"),
+		mk(`{"swap":"x"}`, "swap_string"),
+		mk(`{"swap":[]}`, "swap_array"),
+		mk(`{"swap":{"forward":1}}`, "forward_not_object"),
+		mk(`{"swap":{"forward":"next"}}`, "forward_string"),
+		mk(`{"swap":{}}`, "empty_swap_nil_route"),
+		mk(`{"swap":{`+good+`,"exact_amount_in":{}}}`, "nil_min_amount_out"),
+		mk(`{"swap":{`+good+`,"exact_amount_out":{}}}`, "nil_amount_out"),
+		mk(`{"swap":{`+good+`}}`, "no_amount_strategy"),
+		mk(`{"swap":{"route":{"denom_in":"urise","denom_out":"uusdc","pool":{}},"exact_amount_in":{"min_amount_out":"1"}}}`, "empty_pool"),
+		mk(`{"swap":{"route":{"denom_in":"urise","denom_out":"urise","series":{"routes":[{"denom_in":"urise","denom_out":"uusdc","pool":{"pool_id":"0"}},{"denom_in":"uusdc","denom_out":"urise","pool":{"pool_id":"0"}}]}},"exact_amount_in":{"min_amount_out":"1"}}}`, "reuse"),
+		mk(`{"swap":{"route":{"denom_in":"urise","denom_out":"uusdc","parallel":{"routes":[{"denom_in":"urise","denom_out":"uusdc","pool":{"pool_id":"0"}}],"weights":[]}},"exact_amount_in":{"min_amount_out":"1"}}}`, "parallel_no_weights"),
+		mk(`{"swap":{"route":{"denom_in":"urise","denom_out":"u","pool":{"pool_id":"0"}},"exact_amount_in":{"min_amount_out":"1"}}}`, "one_char_denom"),
+		mk(`{"swap":{`+good+`,"exact_amount_in":{"min_amount_out":"1"}}}`, "valid_exact_in"),
+		mk(`{"swap":{`+good+`,"exact_amount_out":{"amount_out":"10"},"forward":{"receiver":"cosmos1x","port":"transfer","channel":"channel-2","next":{"wasm":{}}}}}`, "valid_forward_next"),
+	}
+}
+
+func (w *world) corpusRoutes() []*swaptypes.Route {
+	p := poolRoute("urise", "uusdc", 0)
+	back := poolRoute("uusdc", "urise", 0)
+	return []*swaptypes.Route{
+		nil,
+		{DenomIn: "urise", DenomOut: "urise", Strategy: &swaptypes.Route_Series{Series: &swaptypes.RouteSeries{Routes: []swaptypes.Route{p, back}}}},
+		{DenomIn: "urise", DenomOut: "uusdc", Strategy: &swaptypes.Route_Pool{}},
+		{DenomIn: "urise", DenomOut: "uusdc", Strategy: &swaptypes.Route_Series{}},
+		{DenomIn: "urise", DenomOut: "uusdc", Strategy: &swaptypes.Route_Parallel{}},
+		{DenomIn: "a", DenomOut: "uusdc", Strategy: &swaptypes.Route_Pool{Pool: &swaptypes.RoutePool{PoolId: 0}}},
+		{DenomIn: "urise", DenomOut: "uusdc", Strategy: &swaptypes.Route_Parallel{Parallel: &swaptypes.RouteParallel{Routes: []swaptypes.Route{p, p}, Weights: []string{"1", "1"}}}},
+		{DenomIn: "urise", DenomOut: "uusdc"},
+		&p,
+	}
+}
+
+type headCase struct {
+	key string
+	req any
+	tag string
+}
+
+func (w *world) corpusHeads() []headCase {
+	a0, a1 := w.p.accAddrs[0], w.p.accAddrs[1]
+	val := w.p.valAddrs[0]
+	good := poolRoute("urise", "uusdc", 0)
+	par := func(ws ...string) *swaptypes.Route {
+		return &swaptypes.Route{DenomIn: "urise", DenomOut: "uusdc", Strategy: &swaptypes.Route_Parallel{Parallel: &swaptypes.RouteParallel{Routes: []swaptypes.Route{good}, Weights: ws}}}
+	}
+	big := "60000000000000000000000000000000000000000000000000000000000000000000000000000"
+	r := emit.NewRand(7)
+	cv := w.base(r, "shareclass.Msg.CreateValidator").(*sctypes.MsgCreateValidator)
+	cv.Amount.Amount = sdkmath.Int{}
+	dap := w.base(r, "da.Msg.UpdateParams").(*datypes.MsgUpdateParams)
+	dap.Params.PublishDataCollateral = sdk.Coins{{Denom: "urise"}}
+	return []headCase{
+		{"tokenconverter.Msg.Convert", &tctypes.MsgConvert{Sender: a0}, "nil_amount"},
+		{"swap.Msg.SwapExactAmountIn", &swaptypes.MsgSwapExactAmountIn{Sender: a0, Route: good, MinAmountOut: sdkmath.OneInt()}, "nil_amount_in"},
+		{"swap.Msg.SwapExactAmountOut", &swaptypes.MsgSwapExactAmountOut{Sender: a0, Route: good, MaxAmountIn: sdkmath.OneInt()}, "nil_amount_out"},
+		{"swap.Msg.SwapExactAmountIn", &swaptypes.MsgSwapExactAmountIn{Sender: a0, Route: swaptypes.Route{DenomIn: "urise", DenomOut: "uusdc", Strategy: &swaptypes.Route_Pool{}}, AmountIn: sdkmath.OneInt(), MinAmountOut: sdkmath.OneInt()}, "nil_pool"},
+		{"swap.Msg.SwapExactAmountIn", &swaptypes.MsgSwapExactAmountIn{Sender: a0, Route: poolRoute("a", "uusdc", 0), AmountIn: sdkmath.OneInt(), MinAmountOut: sdkmath.OneInt()}, "one_char_denom"},
+		{"swap.Query.CalculationSwapExactAmountIn", &swaptypes.QueryCalculationSwapExactAmountInRequest{AmountIn: "5"}, "nil_route"},
+		{"swap.Query.CalculationSwapExactAmountIn", &swaptypes.QueryCalculationSwapExactAmountInRequest{Route: par(), AmountIn: "5"}, "no_weights"},
+		{"swap.Query.CalculationSwapExactAmountIn", &swaptypes.QueryCalculationSwapExactAmountInRequest{Route: par("1", "1"), AmountIn: "5"}, "more_weights"},
+		{"swap.Query.CalculationSwapExactAmountOut", &swaptypes.QueryCalculationSwapExactAmountOutRequest{Route: &good, AmountOut: "-5"}, "negative_amount"},
+		{"swap.Query.CalculationSwapExactAmountOut", &swaptypes.QueryCalculationSwapExactAmountOutRequest{Route: &swaptypes.Route{DenomIn: "urise", DenomOut: "uusdc", Strategy: &swaptypes.Route_Pool{}}, AmountOut: "5"}, "nil_pool"},
+		{"swap.Msg.UpdateParams", &swaptypes.MsgUpdateParams{Authority: w.p.authority, Params: swaptypes.Params{InterfaceFeeRate: "1"}}, "fee_rate_one"},
+		{"liquidityincentive.Query.Vote", &litypes.QueryVoteRequest{Address: "abc"}, "bad_address"},
+		{"liquidityincentive.Msg.VoteGauge", &litypes.MsgVoteGauge{Sender: a0, PoolWeights: []litypes.PoolWeight{{PoolId: 0, Weight: big}, {PoolId: 1, Weight: big}}}, "weight_overflow"},
+		{"shareclass.Query.CalculateShare", &sctypes.QueryCalculateShareRequest{ValidatorAddress: "u$d", Amount: sdkmath.OneInt()}, "bad_validator"},
+		{"shareclass.Query.CalculateBondingAmount", &sctypes.QueryCalculateBondingAmountRequest{ValidatorAddress: val}, "nil_share"},
+		{"shareclass.Msg.NonVotingUndelegate", &sctypes.MsgNonVotingUndelegate{Sender: a0, ValidatorAddress: val, Amount: sdk.Coin{Denom: "urise"}}, "nil_amount"},
+		{"shareclass.Msg.NonVotingDelegate", &sctypes.MsgNonVotingDelegate{Sender: a0, ValidatorAddress: val, Amount: sdk.Coin{Denom: "urise", Amount: sdkmath.NewInt(-1)}}, "negative_amount"},
+		{"shareclass.Msg.CreateValidator", cv, "nil_amount"},
+		{"selfdelegation.Msg.SelfDelegate", &sdtypes.MsgSelfDelegate{Sender: a1}, "nil_amount"},
+		{"selfdelegation.Msg.SelfDelegate", &sdtypes.MsgSelfDelegate{Sender: a1, Amount: sdkmath.NewInt(-1)}, "negative_amount"},
+		{"liquiditypool.Msg.CreatePosition", &lptypes.MsgCreatePosition{Sender: a0, PoolId: 0, LowerTick: -10, UpperTick: 10, TokenBase: sdk.Coin{Denom: "urise"}, TokenQuote: sdk.Coin{Denom: "uusdc"}}, "nil_amounts"},
+		{"liquiditypool.Msg.IncreaseLiquidity", &lptypes.MsgIncreaseLiquidity{Sender: a0, Id: 0}, "nil_amounts"},
+		{"liquiditypool.Msg.CreatePool", &lptypes.MsgCreatePool{Authority: a0, DenomBase: "a", DenomQuote: "uusdc", FeeRate: "0.01", PriceRatio: "1.0001", BaseOffset: "0.5"}, "one_char_denom"},
+		{"liquiditypool.Query.CalculationCreatePosition", &lptypes.QueryCalculationCreatePositionRequest{PoolId: 0, LowerTick: "-10", UpperTick: "18446744073709551616", Amount: "5", Denom: "urise"}, "tick_out_of_int64"},
+		{"liquiditypool.Query.CalculationCreatePosition", &lptypes.QueryCalculationCreatePositionRequest{PoolId: 0, LowerTick: "-10", UpperTick: "10", Amount: "-5", Denom: "urise"}, "negative_amount"},
+		{"da.Query.ZkpProofThreshold", &datypes.QueryZkpProofThresholdRequest{ShardCount: 1 << 63}, "shard_count_2_63"},
+		{"da.Query.ValidatorShardIndices", &datypes.QueryValidatorShardIndicesRequest{ValidatorAddress: val, ShardCount: ^uint64(0)}, "shard_count_max"},
+		{"da.Msg.SubmitValidityProof", &datypes.MsgSubmitValidityProof{Sender: sdk.AccAddress(w.valBytes).String(), ValidatorAddress: val, MetadataUri: "ipfs://challenged", Indices: []int64{-1}, Proofs: [][]byte{emptyProof()}}, "negative_index"},
+		{"da.Msg.UpdateParams", dap, "nil_collateral_amount"},
+	}
+}
+
+// mixSeed spreads consecutive seeds over the generator's cycle: emit.NewRand(k) and
+// emit.NewRand(k+1) are the same splitmix stream shifted by one draw.
+func mixSeed(seed int64) int64 {
+	z := uint64(seed) + 0x9E3779B97F4A7C15
+	z = (z ^ (z >> 30)) * 0xBF58476D1CE4E5B9
+	z = (z ^ (z >> 27)) * 0x94D049BB133111EB
+	return int64(z ^ (z >> 31))
+}
+
+const rule = "a case is non-trivial when the input got past the first validation of the function under test: memo = " +
+	"encoding/json accepted it; route = not a nil pointer; metadata = the route was accepted; service method = accepted, or " +
+	"rejected although the first validated field was valid. Distinct by (function, mutation kind, outcome class)"
 
 // Run generates n cases from seed, runs them on the real application and writes
 // cases_*.v and stats.json into outDir.
 func Run(seed int64, n int, outDir string) error {
-	return fmt.Errorf("c15: harness not built yet")
+	if os.Getenv("C15_EXPLORE") != "" {
+		return explore(seed, n)
+	}
+	w := setup()
+	defer w.h.Close()
+	r := emit.NewRand(mixSeed(seed))
+	st := emit.NewStats("C15", seed, rule)
+	cf := &emit.CasesFile{Import: "Sys.C15Check", Runner: "run_c15", Type: "c15_case"}
+	add := func(term string, info map[string]any) {
+		cf.Add(term)
+		st.Info(info)
+		st.Evaluations++
+		if len(st.Samples) < 5 && st.Evaluations%37 == 1 {
+			st.Sample(info)
+		}
+	}
+	doMemo := func(c memoCase) {
+		term, info, classes := w.runMemo(c)
+		for _, k := range classes {
+			st.Count("memo " + k)
+		}
+		add(term, info)
+		if classes[0] != "decode:err" || !strings.Contains(fmt.Sprint(info["decode_err"]), "invalid character") {
+			if parseJSON(c.memo) != nil {
+				st.Nontriv("memo/" + strings.TrimPrefix(c.tag, "corpus:") + "/" + strings.Join(classes, ","))
+			}
+		}
+	}
+	doRoute := func(rt *swaptypes.Route, tag string) {
+		term, info, cls := w.runRoute(rt, tag)
+		st.Count("route " + cls)
+		add(term, info)
+		if rt != nil {
+			st.Nontriv("route/" + tag + "/" + cls)
+		}
+	}
+	doMeta := func(m *swaptypes.SwapMetadata, tag string) {
+		term, info, cls := w.runMeta(m, tag)
+		st.Count("meta " + cls)
+		add(term, info)
+		if rc, _ := guard(func() error { return m.Route.Validate() }); m.Route != nil && rc == clsOk {
+			st.Nontriv("meta/" + tag + "/" + cls)
+		}
+	}
+	doHead := func(key string, req any, tag string) {
+		m, ok := w.byKey[key]
+		if !ok {
+			panic("unknown method " + key)
+		}
+		term, info, cls := w.runHead(m, req, tag)
+		st.Count("call " + cls)
+		st.Count("method " + key)
+		add(term, info)
+		if cls == clsOk || (cls == clsErr && !strings.HasPrefix(tag, "field:Sender") && !strings.HasPrefix(tag, "field:Authority") && !strings.HasPrefix(tag, "reflect") && tag != "nilreq") {
+			st.Nontriv("call/" + key + "/" + tag + "/" + cls)
+		}
+	}
+
+	// corpus first
+	for _, c := range w.corpusMemos() {
+		doMemo(c)
+	}
+	for i, rt := range w.corpusRoutes() {
+		doRoute(rt, fmt.Sprintf("corpus:%d", i))
+	}
+	for _, c := range w.corpusHeads() {
+		doHead(c.key, c.req, "corpus:"+c.tag)
+	}
+	for _, rate := range feeRates {
+		term, info, classes := w.runFee(rate)
+		for _, k := range classes {
+			st.Count(k)
+		}
+		add(term, info)
+		st.Nontriv("fee/" + rate + "/" + strings.Join(classes, ","))
+	}
+	// every method once with its base request (or a reflective one) and once with a nil request for queries
+	for _, m := range w.ms {
+		req := w.base(r, m.Key())
+		if req == nil {
+			req = w.p.genRequest(r, m.In, false)
+		}
+		doHead(m.Key(), req, "base")
+		if m.Kind == "Query" {
+			doHead(m.Key(), reflect.Zero(m.In).Interface(), "nilreq")
+		}
+	}
+	// generated stream
+	for i := 0; i < n; i++ {
+		switch k := r.Intn(100); {
+		case k < 30:
+			doMemo(w.genMemo(r))
+		case k < 42:
+			rt, tag := w.genAnyRoute(r)
+			doRoute(rt, tag)
+		case k < 50:
+			m, tag := w.genMetaCase(r)
+			doMeta(m, tag)
+		case k < 82: // structured: valid base, usually with one damaged field
+			m := w.ms[r.Intn(len(w.ms))]
+			req := w.base(r, m.Key())
+			if req == nil {
+				doHead(m.Key(), w.p.genRequest(r, m.In, m.Kind == "Query"), "reflect")
+				continue
+			}
+			tag := "valid"
+			if r.Chance(3, 4) {
+				tag = w.mutate(r, req)
+			}
+			doHead(m.Key(), req, tag)
+		default: // reflective: every field from the edge pools (search)
+			m := w.ms[r.Intn(len(w.ms))]
+			doHead(m.Key(), w.p.genRequest(r, m.In, m.Kind == "Query"), "reflect")
+		}
+	}
+	if _, err := cf.Write(outDir, "cases", 250); err != nil {
+		return err
+	}
+	st.Extra["methods"] = len(w.ms)
+	return st.Write(outDir)
 }
